@@ -199,6 +199,20 @@ def run(ctx):
                    '%s: a uid list longer than the buffer is cut, so uids behind the cut are treated as unlisted and the '
                    'item at the cut as a different number' % why,
                    how='the parser works on strdup(<filter argument>)')
+    # the list parser's count and its array agree: it returns "separators + 1" and the filters convert that many
+    # entries, so every one of them must have been stored - a tokeniser that skips empty items (strtok, strtok_r,
+    # strsep) stores fewer for ",,", a leading or a trailing "," and leaves the rest NULL (atol(NULL) in the filter)
+    hname = None
+    for v in helpers.values():
+        hname = hname or v[0]
+    H = prog.func(hname) if hname else None
+    if H is not None:
+        toks = [c for c in H.calls() if c.get('callee') in ('strtok', 'strtok_r', 'strsep')]
+        chk.ob('U3', 'list-count-matches-entries[%s]' % H.name, not toks, (toks[0] if toks else H.body).where(), H.name,
+               '%s cuts the list with %s, which skips empty items, but reports a count derived from the number of separators: '
+               'for "1,2," or "1,,2" the filters read entries that were never stored (NULL), and atol(NULL) kills the '
+               'process inside its exec' % (H.name, toks[0]['callee'] if toks else ''),
+               how='entries are the texts behind each separator found by the same scan that is counted')
     if len(helpers) == 2:
         a, b = helpers['snoopy_filter_only_uid'], helpers['snoopy_filter_exclude_uid']
         chk.ob('U3', 'siblings-share-list-handling', a == b and a[0] is not None, '', '',
